@@ -321,7 +321,7 @@ func genCmd(r *rand.Rand, prop string, names, nonlib []string, cur map[string]st
 		var kinds []string
 		switch st.Cmd {
 		case "gen", "default":
-			kinds = []string{"hdr-missing", "hdr-dir", "hdr-eio", "hdr-notgo", "w-err", "w-err", "w-short", "w-crash-before", "w-crash-trunc", "w-crash-mid", "w-crash-mid", "w-crash-after", "getwd", "nogo"}
+			kinds = []string{"hdr-missing", "hdr-dir", "hdr-eio", "hdr-notgo", "w-err", "w-err", "w-short", "w-crash-before", "w-crash-trunc", "w-crash-mid", "w-crash-mid", "w-crash-after", "w-close", "getwd", "nogo"}
 			if st.Cmd == "default" {
 				kinds = kinds[4:]
 			}
@@ -342,6 +342,8 @@ func genCmd(r *rand.Rand, prop string, names, nonlib []string, cur map[string]st
 			st.Faults = append(st.Faults, world.Fault{Op: "read", Path: "hdr.txt", Nth: 1, Kind: "eio"})
 		case "w-err":
 			st.Faults = append(st.Faults, world.Fault{Op: "write", Path: outName, Nth: nth, Kind: pick(r, []string{"err-eacces", "err-enospc", "err-erofs", "err-eio"})})
+		case "w-close":
+			st.Faults = append(st.Faults, world.Fault{Op: "write", Path: outName, Nth: nth, Kind: pick(r, []string{"close-eio", "close-enospc", "sync-eio"})})
 		case "w-short":
 			st.Faults = append(st.Faults, world.Fault{Op: "write", Path: outName, Nth: nth, Kind: "short", N: r.IntN(1000)})
 		case "w-crash-before", "w-crash-trunc", "w-crash-after":
